@@ -112,17 +112,48 @@ DLENS = [1, 2, 4, 5, 20, 32, 33, 64, 65, 75, 76, 255, 256, 520]
 G = bytes.fromhex('0279be667ef9dcbbac55a06295ce870b07029bfcdb2dce28d959f2815b16f81798')
 
 
+def nested_oracle_shape(d, depth=0):
+    """does reading d as a script (plain opcode loop, recursively into pushed items) meet a signature-/key-shaped push?
+    Acceptance of such pushes (Signature.parse_bytes / Key()) is an ORACLE of the model, so generated data stays clear of it
+    at every nesting level, not only at the top."""
+    i, n = 0, len(d)
+    while i < n:
+        b = d[i]
+        i += 1
+        if 1 <= b <= 75:
+            ln = b
+        elif b == 0x4c and i < n:
+            ln = d[i]; i += 1
+        elif b == 0x4d and i + 1 < n:
+            ln = d[i] | (d[i + 1] << 8); i += 2
+        elif b == 0x4e and i + 3 < n:
+            ln = int.from_bytes(d[i:i + 4], 'little'); i += 4
+        else:
+            continue
+        item = d[i:i + ln]
+        i += ln
+        if item and data_type(item) in ('sig', 'key'):
+            return True
+        if depth < 3 and len(item) > 4 and nested_oracle_shape(item, depth + 1):
+            return True
+    return False
+
+
 def rand_data(rng, n):
     mode = rng.randrange(4)
     if mode == 0:
         return bytes([0x51]) * n
     if mode == 1:
         return bytes([rng.choice([0, 1, 0x4c, 0x75, 0xff])]) * n
-    d = bytes(rng.randrange(256) for _ in range(n))
-    # keep random items out of the signature-/key-shaped classes whose acceptance is an oracle in the model
-    if data_type(d) in ('sig', 'key'):
-        d = b'\x55' + d[1:]
-    return d
+    for _ in range(50):
+        d = bytes(rng.randrange(256) for _ in range(n))
+        # keep random items out of the signature-/key-shaped classes whose acceptance is an oracle in the model,
+        # also where the item is re-read as a nested script
+        if data_type(d) in ('sig', 'key'):
+            d = b'\x55' + d[1:]
+        if not nested_oracle_shape(d):
+            return d
+    return bytes([0x51]) * n
 
 
 def script_cases(cmds, out):
